@@ -36,7 +36,9 @@ CONSTANTS MaxId,        \* max_request_id: at most MaxId requests in flight per 
           NConns,       \* connections the pool may open during its life
           MaxFails,     \* failed attempts to open a replacement
           MaxConnFails, \* socket errors
-          Ks            \* BOOLEAN: the session has a keyspace, so _replace selects it on the new connection (a USE round trip)
+          Ks,           \* BOOLEAN: the session has a keyspace, so _replace selects it on the new connection (a USE round trip)
+          SubmitAtTimeout  \* BOOLEAN: an implementation choice the properties leave open - once the threshold is reached the
+                           \* replacement is requested by the next borrow (FALSE), or already by a timeout that finds it reached (TRUE)
 
 Conns == 1..NConns
 
@@ -238,16 +240,21 @@ Timeout(r) ==
        IF shutdown
        THEN \* cluster.py 4510: nothing is orphaned or returned once the pool is shut down
             /\ reg' = rg /\ st' = [st EXCEPT ![r] = "timedout"]
-            /\ UNCHANGED <<inflight, orph, owed, thr, closed, defunct, signaled, trash>>
+            /\ UNCHANGED <<inflight, orph, owed, thr, closed, defunct, signaled, trash, replacing, rep>>
        ELSE LET orp == [orph EXCEPT ![c] = @ \cup {r}]
-                K == IF Drained(c, inflight, orp) THEN {c} ELSE {} IN
+                K == IF Drained(c, inflight, orp) THEN {c} ELSE {}
+                \* the flag is latched: it stays set when late responses release orphaned streams again
+                th == [thr EXCEPT ![c] = @ \/ Cardinality(orp[c]) >= Threshold]
+                sub == SubmitAtTimeout /\ th[c] /\ c = cur /\ ~closed[c] /\ ~replacing IN
             /\ orph' = orp
-            /\ thr' = [thr EXCEPT ![c] = @ \/ Cardinality(orp[c]) >= Threshold]
+            /\ thr' = th
             /\ Apply(K, {}, {}, inflight, rg, owed, [st EXCEPT ![r] = "timedout"])
             /\ trash' = trash \ K
+            /\ replacing' = (replacing \/ sub)
+            /\ rep' = IF sub THEN Queued(c) ELSE rep
     /\ act' = A("Timeout", r, 0, FALSE)
     /\ UNCHANGED late
-    /\ UNCHANGED <<cur, replacing, shutdown, sd, rep, opened, fails, cfails, on>>
+    /\ UNCHANGED <<cur, shutdown, sd, opened, fails, cfails, on>>
 
 (* socket error: defunct, close, error_all_requests; the first errored request's return tells the pool *)
 ConnFails(c, down) ==
@@ -437,6 +444,13 @@ Witness_FailedOldWhileCurrentHealthy ==
 Witness_Repick == ~(act.name = "BorrowTake" /\ st[act.r] = "borrowed" /\ on[act.r] # act.c)
 Witness_InlineShutdown == ~(act.name \in {"ConnFails", "Send"} /\ act.f /\ sd = "done" /\ opened >= 2)
 Witness_QuiescentAllClosed == ~(Quiescent /\ opened >= 2)
+\* shutdown() of a pool that has no current connection (its replacement is still queued) but a trashed one with a live request
+Witness_ShutdownTrashWithoutCurrent ==
+    ~(act.name = "ShutdownCloseTrash" /\ rep.ph = "queued" /\ defunct[rep.old]
+      /\ \E c \in 1..opened : c # rep.old /\ closed[c] /\ ~defunct[c] /\ thr[c] /\ \E r \in Reqs : on[r] = c /\ st[r] = "errored")
+\* the latch matters: a timeout that leaves fewer orphaned streams than the threshold on a connection whose flag is set
+Witness_TimeoutBelowThresholdAfterLatch ==
+    ~(act.name = "Timeout" /\ ~shutdown /\ thr[on[act.r]] /\ Cardinality(orph[on[act.r]]) < Threshold /\ replacing)
 Witness_RetireDuringLateResponse == ~(act.name = "ReplaceRetire" /\ late # 0 /\ late \in trash)
 Witness_BorrowDuringLateResponse == ~(act.name = "BorrowTake" /\ late # 0 /\ st[act.r] = "borrowed" /\ on[act.r] = late)
 Witness_MarkAfterReplacement == ~(act.name = "BorrowMark" /\ on[act.r] # cur /\ cur # 0 /\ ~replacing /\ ~shutdown)
